@@ -67,14 +67,19 @@ func Pack(t *lex.Tables) (*Scanner, error) {
 		return nil, errors.New("only ASCII automatons are supported")
 	}
 
+	// Note: in the "scan bytes" mode, the symbol map covers (and can distinguish) all 256 bytes.
+	limit := 128
+	if t.ScanBytes {
+		limit = 256
+	}
 	symBytes := make([][]uint8, t.NumSymbols)
 	var e int
-	for i := uint8(0); i < 128; i++ {
+	for i := 0; i < limit; i++ {
 		if e+1 < len(t.SymbolMap) && t.SymbolMap[e+1].Start == rune(i) {
 			e++
 		}
 		target := t.SymbolMap[e].Target
-		symBytes[target] = append(symBytes[target], i)
+		symBytes[target] = append(symBytes[target], uint8(i))
 	}
 	uniSym := t.SymbolMap[len(t.SymbolMap)-1].Target
 
@@ -101,7 +106,7 @@ func Pack(t *lex.Tables) (*Scanner, error) {
 				}
 				ret.onEoi[state] = uint8(target) / 2
 			}
-			if sym != int(uniSym) {
+			if sym != int(uniSym) || t.ScanBytes {
 				continue
 			}
 			// Note: here we consume unicode runes byte by byte.
